@@ -1,7 +1,7 @@
 #!/bin/bash
 # tools/sweep.sh <tier> [seed ...]   runs every check at the given tier and seeds; prints rc and wall time per run
 cd "$(dirname "$0")/.."
-TIER="${1:-quick}"; shift
+TIER="${1:-quick}"; shift; mkdir -p out
 SEEDS="${@:-1}"
 for seed in $SEEDS; do
   for i in 01 02 03 04 05 06 07 08 09 10 11 12 13 14 15 16 17 18 19 20; do
